@@ -100,10 +100,17 @@ func (k Keeper) CalculateBatchAllocation(ctx context.Context, auction types.Auct
 		// from the lowest price.
 		i = (len(prices) - 1) - i
 		res, matched := types.Match(prices[i], prices, bidsByPrice, sellingAmt, allowedBidders)
+		if res == nil {
+			// The demand at this price exceeds the selling amount.
+			return false
+		}
 		if matched { // If we found a valid matching price, store the result
 			matchRes = res
 		}
-		return matched
+		// Search on "the demand fits the selling amount" only: it is monotone in the price,
+		// whereas "fits and matches something" is not when the bids at the highest prices
+		// convert to zero coins, and sort.Search would then never probe the lower prices.
+		return true
 	})
 
 	mInfo.MatchedLen = int64(len(matchRes.MatchedBids))
